@@ -149,6 +149,11 @@ def run_shard(prop, tier, seed, shard, nshards, out, clause_filter, scale):
     for ci, clause in enumerate(mod.CLAUSES):
         if want and clause.name not in want:
             continue
+        if harness.RUNAWAY:
+            # a case of an earlier clause exhausted the memory limit (reported as that clause's failure): this process'
+            # address space is used up, the remaining clauses of this shard are not run
+            err = err or None
+            break
         n = clause.quick if tier == "quick" else clause.thorough
         n = int(n * scale)
         if n > 0:
@@ -270,7 +275,11 @@ def run_parent(prop, tier, seed, nshards, clause_filter, scale):
             if not confirmed:
                 harness_errors.append("shard %d died rc=%s (crash not reproducible from its last case): %s" % (i, rc, tail))
             continue
-        data = json.load(open(out))
+        try:
+            data = json.load(open(out))
+        except Exception as e:
+            harness_errors.append("shard %d left no readable result file (%s)" % (i, type(e).__name__))
+            continue
         if data.get("harness_error"):
             harness_errors.append("shard %d: %s" % (i, data["harness_error"]))
         for c in data.get("clauses", []):
